@@ -26,3 +26,41 @@ package helpers
 //@   loop 1 invariant added:   forall x string :: mem(added, x) <==> (exists j int :: 0 <= j && j < i && index[j] == x &&
 //@                       ((!ActiveAt(before, j) && ActiveAt(after, j)) ||
 //@                        (ActiveAt(before, j) == ActiveAt(after, j) && !isnil(before) && TickAt(before, j) != TickAt(after, j))))
+
+// ---- C20: the wait helpers answer what the machine reported ----
+// Against the interface contracts of am.Api (pkg/machine): ghost.mutRes is the
+// result of the mutation the helper issued, ghost.ans the machine's answer to
+// the Is / Not question asked after the queue tick was reached.
+
+//@ func EvAddSync(ctx context.Context, e *am.Event, mach am.Api, states S, args ...am.A) (r bool)
+//@   props C20
+//@   requires nn: mach != nil && ctx != nil
+//@   requires seq: ghost.ansSeq <= ghost.apiSeq && ghost.mutSeq <= ghost.apiSeq && ghost.subSeq <= ghost.apiSeq
+//@   assigns ghost.apiSeq, ghost.mutSeq, ghost.mutRes, ghost.ansSeq, ghost.ans, ghost.wqTick
+//@   ensures issued:   ghost.mutSeq > old(ghost.apiSeq)
+//@   ensures executed: ghost.mutRes == 0 ==> r
+//@   ensures canceled: ghost.mutRes == 1 ==> !r
+//@   ensures queued:   ghost.mutRes >= 2 && r ==> ghost.ansSeq > ghost.mutSeq && ghost.ans == 1 && ghost.wqTick == ghost.mutRes
+//@   ensures truth:    ghost.mutRes >= 2 && ghost.ansSeq > ghost.mutSeq ==> (r <==> ghost.ans == 1)
+
+//@ func EvRemoveSync(ctx context.Context, e *am.Event, mach am.Api, states S, args ...am.A) (r bool)
+//@   props C20
+//@   requires nn: mach != nil && ctx != nil
+//@   requires seq: ghost.ansSeq <= ghost.apiSeq && ghost.mutSeq <= ghost.apiSeq && ghost.subSeq <= ghost.apiSeq
+//@   assigns ghost.apiSeq, ghost.mutSeq, ghost.mutRes, ghost.ansSeq, ghost.ans, ghost.wqTick
+//@   ensures issued:   ghost.mutSeq > old(ghost.apiSeq)
+//@   ensures executed: ghost.mutRes == 0 ==> r
+//@   ensures canceled: ghost.mutRes == 1 ==> !r
+//@   ensures queued:   ghost.mutRes >= 2 && r ==> ghost.ansSeq > ghost.mutSeq && ghost.ans == 1 && ghost.wqTick == ghost.mutRes
+//@   ensures truth:    ghost.mutRes >= 2 && ghost.ansSeq > ghost.mutSeq ==> (r <==> ghost.ans == 1)
+
+// The subscription for the awaited state is taken BEFORE the mutation is
+// issued (an activation during the mutation call must count).
+//@ func EvAddAsync(ctx context.Context, e *am.Event, mach am.Api, waitState string, addStates S, args ...am.A) (r bool)
+//@   props C20
+//@   requires nn: mach != nil && ctx != nil
+//@   requires seq: ghost.ansSeq <= ghost.apiSeq && ghost.mutSeq <= ghost.apiSeq && ghost.subSeq <= ghost.apiSeq
+//@   assigns ghost.apiSeq, ghost.mutSeq, ghost.mutRes, ghost.subSeq
+//@   ensures issued:    ghost.mutSeq > old(ghost.apiSeq)
+//@   ensures subscribed_first: ghost.subSeq > old(ghost.apiSeq) && ghost.subSeq < ghost.mutSeq
+//@   ensures canceled:  ghost.mutRes == 1 ==> !r
